@@ -7,9 +7,12 @@
    runtime tree, also when the append fails half-way; (2) a runtime child the file lacks is written as a whole new
    branch at its runtime path; (3) the replace step of append-over: the node's own content (tags, metadata, datasets)
    becomes the runtime node's, the data children that exist only in the file are kept below it, siblings untouched,
-   no scratch group.  PARTIAL: the composition of the replace steps of append-over over a whole tree, and the emdpath
-   variants of the dispatcher of write.py, are tied by correspondence + the reference-model oracle. *)
-From Emd Require Import Base.Prelude Model.H5 Model.Emd Generated.Tables Proofs.PTree Proofs.PFault Proofs.PAppend Proofs.PRead Proofs.PUnion.
+   no scratch group; (4) UNION + REPLACE: append-over of a runtime tree onto the encoding of a file tree, for all trees at all
+   depths, leaves the file-only nodes (also below a replaced node), replaces own content and metadata of every node
+   present in both, adds the rest -- and save(path, root, mode = any append-over mode) leaves exactly that in the file.
+   PARTIAL: the emdpath variants of the dispatcher of write.py (targeted appends) and root metadata under append-over
+   are tied by correspondence + the reference-model oracle. *)
+From Emd Require Import Base.Prelude Model.H5 Model.Emd Model.Reader Generated.Tables Proofs.PTree Proofs.PFault Proofs.PAppend Proofs.PRead Proofs.PUnion Proofs.PUnionAO.
 
 (* merge m n: m's own content; a child of n called like a child of m is merged into it, recursively; the other children
    of n follow m's, each with its whole branch.  compat m n: n's children are distinctly named, are not called like a
@@ -37,6 +40,42 @@ Theorem C09_append_save_leaves_the_union_in_the_file :
     write_node c (H5 (whole_file c0 m)) root [] (WA md tr None) = (Ok tt, H5 (whole_file c0 (union_root m root))).
 Proof. exact append_save_is_union. Qed.
 Print Assumptions C09_append_save_leaves_the_union_in_the_file.
+
+(* ---------- append-over.  aom n ks = the children a file node has after runtime node n went over it: the file-only ones
+   stay (first); then each child of n -- a new one as it is (with its whole branch), one that replaces a file child km as
+   `replaced k km` = k's own class / payload / metadata, and below it aom k (the children of km, which the replace step
+   re-links in name order).  compat_ao: names distinct, no clash with the datasets / bundle of the node they go under or
+   with a scratch name, new branches writable. *)
+Theorem C09_appendover_is_union_and_replace :
+  forall m n, compat_ao n (shallow_links m) (rkids m) ->
+    append_branch true n (enc m) = Ok (enc (with_kids m (aom n (rkids m)))).
+Proof. exact appendover_on_enc. Qed.
+Print Assumptions C09_appendover_is_union_and_replace.
+
+Theorem C09_appendover_shape :
+  forall n ks, aom n ks = filter (fun km => negb (mem (rname km) (map rname (rkids n)))) ks ++
+                          map (fun k => match rget ks (rname k) with Some km => replaced k km | None => k end) (rkids n).
+Proof. exact aom_eq. Qed.
+Print Assumptions C09_appendover_shape.
+
+Theorem C09_appendover_save_leaves_union_and_replace_in_the_file :
+  forall c c0 m root md tr,
+    In md appendovermode -> tr <> Some false ->
+    rcls m = CRoot -> rname root = rname m -> rmds root = [] -> compat_ao root (shallow_links m) (rkids m) ->
+    write_node c (H5 (whole_file c0 m)) root [] (WA md tr None) = (Ok tt, H5 (whole_file c0 (with_kids m (aom root (rkids m))))).
+Proof. exact appendover_save. Qed.
+Print Assumptions C09_appendover_save_leaves_union_and_replace_in_the_file.
+
+(* file r/{a/{x, y/{z}}, b}; runtime r/{a'/{y'/{w}}, c}: a and y replaced (new payload / metadata), x and z kept, w and c added, b kept *)
+Example C09_appendover_example :
+  let m := RN CRoot "r" 0%Z 0 [] [RN CArray "a" 5%Z 1 [("m", 1%Z)] [RN CNode "x" 0%Z 0 [] []; RN CNode "y" 0%Z 0 [] [RN CPl "z" 3%Z 0 [] []]]; RN CNode "b" 0%Z 0 [] []] in
+  let n := RN CRoot "r" 0%Z 0 [] [RN CArray "a" 6%Z 2 [] [RN CNode "y" 0%Z 0 [("k", 9%Z)] [RN CNode "w" 0%Z 0 [] []]]; RN CNode "c" 0%Z 0 [] []] in
+  compat_ao n (shallow_links m) (rkids m) /\
+  with_kids m (aom n (rkids m)) =
+    RN CRoot "r" 0%Z 0 [] [RN CNode "b" 0%Z 0 [] [];
+                           RN CArray "a" 6%Z 2 [] [RN CNode "x" 0%Z 0 [] []; RN CNode "y" 0%Z 0 [("k", 9%Z)] [RN CPl "z" 3%Z 0 [] []; RN CNode "w" 0%Z 0 [] []]];
+                           RN CNode "c" 0%Z 0 [] []].
+Proof. cbv zeta. split; [apply compat_aob_sound; vm_compute; reflexivity|vm_compute; reflexivity]. Qed.
 
 Theorem C09_append_leaves_existing_nodes_unchanged :
   forall n g g', append_branch false n g = Ok g' -> ext g g'.
